@@ -144,20 +144,25 @@ def main():
                                  note='den(result) = op(den(operand)); same class; raising paths %r' % ([p['val'] for p in pth if p['kind'] != 'ret'][:1],))
             # modulo (DMS, DDM)
             for lc in ('DMS', 'DDM'):
-                a = real('a')
-                oa, da, pa = mk(lc, a)
-                pre = pa + box(a) + [k.t >= 1, k.t <= 360]
-                pth = E.explore(lambda: oa() % k, pre)
-                ok = bool(pth) and all(p['kind'] == 'ret' for p in pth)
-                res = []
-                for p in pth:
-                    if p['kind'] == 'ret':
-                        q = z3.ToReal(z3.ToInt(da / k.t))
-                        res.append(E.prove_eq(den(p['val']), da - k.t * q, pre + p['pc']))
-                        ok = ok and type(p['val']) is CL[lc]
-                ok = ok and all(x['result'] == 'discharged' for x in res)
-                P.oblige('%s.__mod__' % lc, 'angles.%sAngle.__mod__' % lc, '%d paths' % len(pth), dict(result='discharged' if ok else 'sat', backend=E.Z3V, ms=0), strict=True,
-                         note='den(result) = den(a) mod k (floor modulo, non-negative operand)')
+                for sign in (1, -1):
+                    for ksign in (1, -1):
+                        a = real('a')
+                        oa, da, pa = mk(lc, a)
+                        if sign == -1:
+                            da = -da
+                        pre = pa + box(a) + ([k.t >= 1, k.t <= 360] if ksign == 1 else [k.t <= -1, k.t >= -360])
+                        pth = E.explore(lambda: (oa(True) if sign == -1 else oa()) % k, pre)
+                        ok = bool(pth) and all(p['kind'] == 'ret' for p in pth)
+                        res = []
+                        for p in pth:
+                            if p['kind'] == 'ret':
+                                q = z3.ToReal(z3.ToInt(da / k.t))          # floor: Python's modulo takes the sign of the divisor
+                                res.append(E.prove_eq(den(p['val']), da - k.t * q, pre + p['pc']))
+                                ok = ok and type(p['val']) is CL[lc]
+                        ok = ok and all(x['result'] == 'discharged' for x in res)
+                        P.oblige('%s.__mod__' % lc, 'angles.%sAngle.__mod__' % lc, '%s angle, %s modulus, %d paths' % ('negative' if sign == -1 else 'non-negative', 'negative' if ksign == -1 else 'positive', len(pth)),
+                                 dict(result='discharged' if ok else 'sat', backend=E.Z3V, ms=0), strict=True,
+                                 note='den(result) = den(a) mod k as Python defines it on the decimal values (floor modulo: the result has the sign of k), same class')
             # rounding: changes the object by at most half a unit of the rounded place (round_n as UF with that bound, A3)
             for lc, unit in (('DEC', 1), ('GON', z3.Q(9, 10)), ('DMS', z3.Q(1, 3600)), ('DDM', z3.Q(1, 60))):
                 for nn in (0, 3):
